@@ -87,6 +87,8 @@ where
         let mutex = self.inner.load_read_list()?;
         let mut list = mutex.lock().assume("poisoned")?;
 
+        #[cfg(aranya_verif)]
+        crate::verif::point("read.locked.gen_load");
         let generation = list.generation.load(Ordering::Relaxed);
 
         let (chan, idx) = match list.find_mut(id, None, Op::Seal)? {
@@ -110,6 +112,8 @@ where
         let mutex = self.inner.load_read_list()?;
         let mut list = mutex.lock().assume("poisoned")?;
 
+        #[cfg(aranya_verif)]
+        crate::verif::point("read.locked.gen_load");
         let generation = list.generation.load(Ordering::Relaxed);
 
         let (chan, idx) = match list.find_mut(id, None, Op::Open)? {
@@ -145,6 +149,8 @@ where
 
         let hint = {
             // SAFETY: we only access an atomic field.
+            #[cfg(aranya_verif)]
+            crate::verif::point("read.unsync.gen_load");
             let generation = unsafe {
                 mutex
                     .inner_unsynchronized()
@@ -158,6 +164,8 @@ where
                     cache.key.seq()
                 );
 
+                #[cfg(aranya_verif)]
+                crate::verif::probe("read.cache_hit");
                 return Ok(f(&mut cache.key, cache.label_id));
             }
             // The generations are different, so
@@ -168,6 +176,8 @@ where
 
         // We don't have a cached key, so we need to traverse the
         // list.
+        #[cfg(aranya_verif)]
+        crate::verif::probe("read.cache_miss");
         let mut list = mutex.lock().assume("poisoned")?;
 
         // The list is currently locked (precluding writes to
@@ -176,10 +186,14 @@ where
         //
         // NB: we load the generation before traversing the list
         // to avoid ownership conflicts with `chan`.
+        #[cfg(aranya_verif)]
+        crate::verif::point("read.locked.gen_load");
         let generation = list.generation.load(Ordering::Relaxed);
 
         let (chan, idx) = match list.find_mut(id, hint, Op::Seal)? {
             None => {
+                #[cfg(aranya_verif)]
+                crate::verif::probe("read.seal.revoked");
                 *ctx = SealCtx(None);
                 return Err(crate::Error::NotFound(id));
             }
@@ -219,6 +233,8 @@ where
 
         let hint = {
             // SAFETY: we only access an atomic field.
+            #[cfg(aranya_verif)]
+            crate::verif::point("read.unsync.gen_load");
             let generation = unsafe {
                 mutex
                     .inner_unsynchronized()
@@ -229,6 +245,8 @@ where
                 // Same generation, so we can use the key.
                 debug!("cache hit: id={id} generation={generation}");
 
+                #[cfg(aranya_verif)]
+                crate::verif::probe("read.cache_hit");
                 return Ok(f(&cache.key, cache.label_id));
             }
             // The generations are different, so
@@ -239,6 +257,8 @@ where
 
         // We don't have a cached key, so we need to traverse the
         // list.
+        #[cfg(aranya_verif)]
+        crate::verif::probe("read.cache_miss");
         let list = mutex.lock().assume("poisoned")?;
 
         let (chan, idx) = match list.find(id, hint, Op::Open)? {
@@ -253,6 +273,8 @@ where
         if result.is_ok() {
             // Decryption was successful, so update the cache.
             cache.idx = idx;
+            #[cfg(aranya_verif)]
+            crate::verif::point("read.locked.gen_load");
             cache.generation = list.generation.load(Ordering::Relaxed);
             cache.key = key;
         }
@@ -263,5 +285,22 @@ where
         let mutex = self.inner.load_read_list()?;
         let list = mutex.lock().assume("poisoned")?;
         Ok(list.exists(id, None, Op::Any)?)
+    }
+}
+
+/// Observation points for verification harnesses.
+#[cfg(aranya_verif)]
+impl<CS: CipherSuite> ReadState<CS> {
+    /// Returns the address and the size in bytes of the mapped
+    /// shared memory.
+    pub fn verif_region(&self) -> (usize, usize) {
+        self.inner.verif_region()
+    }
+
+    /// Locks the current read list like `seal`, `open` and
+    /// `exists` do and calls `f` with the ID of each channel in
+    /// it. Returns the list's generation.
+    pub fn verif_read_snapshot(&self, f: &mut dyn FnMut(u64)) -> Result<u32, Error> {
+        self.inner.verif_read_snapshot(f)
     }
 }
